@@ -80,7 +80,13 @@ static void reduce(const int D[M][M], int n, int* low, int* pairOf, int R[M][M],
 // symbolic filtration: position by position, a not-yet-used simplex all of whose facets are already present
 static void choose_filtration() {
   bool used[NSUB]; for (int i = 0; i < NSUB; i++) used[i] = false;
+#ifdef VP_PREFIX_CONE   /* the first 7 cells are fixed: four vertices and the three edges of the cone from vertex 3 (a spanning tree); the solver chooses the rest, so that cells whose boundary meets several unpaired chains appear within few symbolic cells */
+  static const int prefix_cells[7] = {1, 2, 4, 8, 9, 10, 12};
+#endif
   for (int i = 0; i < M; i++) { int m = vp_int("cell", 1, NSUB - 1);
+#ifdef VP_PREFIX_CONE
+    if (i < 7) vp_assume(m == prefix_cells[i]);
+#endif
 #ifdef VP_FORKCELL   /* one path per concrete filtration (enumerated by the solver): for the larger units, where a symbolic cell makes every later query expensive */
     m = vp_fork_int(m);
 #endif
